@@ -8,4 +8,5 @@ Extraction "model.ml" vio_kit inj exp_new exp_record exp_reset exp_setVisits exp
   hist_step rewards_of count countsum mean_x m2_x freq_x never_visited
   trk_new trk_ctor trk_step tSt tN tLast t_bad precond_ok is_ident_rowb delta
   cg_id cg_size cexp_new cexp_step cnode cproj row_rewards row_count cop_ok
-  cml_ctor cml_sync_all cml_sync_ids cml_sync_sa.
+  cml_ctor cml_sync_all cml_sync_ids cml_sync_sa cml_step ctrk_step ctrack
+  fbexp_new fbexp_step fbnode fbproj fbop_ok pidx pspace arm_rewards.
